@@ -55,8 +55,16 @@ Inductive node :=
 | NObj (cid: nat) (fs: list node)     (* instance of class cid with its field values in declaration order *)
 | NList (items: list node).           (* value of a List[<dataclass>] field *)
 
+Definition no_flags : flags := {| g_on := false; g_ba := false; g_dl := false; g_cx := false |}.
+
 Section Table.
   Variable ct : list cls.
+  (* true: the root is a mixin class (x.to_dict(...)); every class carries its own method and nested
+     calls are `value.__mashumaro_to_dict__(<flags>)`.
+     false: codec path (BasicEncoder(cls, default_dialect=D).encode(x)): one non-nailed builder family
+     compiles EVERY class (mixin or plain) afresh with the codec's default dialect, nested calls are the
+     static `<Class>___mashumaro_to_dict__(value)` without any keyword *)
+  Variable nailed : bool.
   Definition flags_c (cid: nat) : flags :=
     match nth_error ct cid with Some c => c.(c_flags) | None => {| g_on := false; g_ba := false; g_dl := false; g_cx := false |} end.
 
@@ -72,9 +80,15 @@ Section Table.
   Definition pick_spec (outer: flags) (members: list nat) (cid: nat) : option flags :=
     if existsb (Nat.eqb cid) members then Some (both outer (flags_c cid)) else None.
 
-  (* default dialect the method of class c was compiled with: a mixin subclass compiles itself
-     (DataClassDictMixin: none); a plain dataclass gets what the compiling builder passes down *)
-  Definition dd_of (c: cls) (pd: option ns) : option ns := if c.(c_mixin) then None else pd.
+  (* flags named in the call of the nested method *)
+  Definition pick (spec: bool) (outer: flags) (members: list nat) (cid: nat) : option flags :=
+    if nailed then (if spec then pick_spec else pick_impl) outer members cid
+    else if existsb (Nat.eqb cid) members then Some no_flags else None.
+
+  (* default dialect the method of class c was compiled with.  Mixin root: a mixin subclass compiled
+     itself (DataClassDictMixin: none), a plain dataclass gets what the compiling builder passes down.
+     Codec: every class is compiled by the codec's builders and gets what they pass down *)
+  Definition dd_of (c: cls) (pd: option ns) : option ns := if nailed && c.(c_mixin) then None else pd.
 
   (* [spec = false]: the generated code; [spec = true]: the reference (hereditary projection of
      the plain output).  [pd]: default dialect passed down by the owner of the field.
@@ -93,7 +107,7 @@ Section Table.
         | Some l => Some (POpq (S (List.length items)), PList l)
         | None => None end
     | NObj cid ch =>
-        match nth_error ct cid, (if spec then pick_spec else pick_impl) outer members cid with
+        match nth_error ct cid, pick spec outer members cid with
         | Some c, Some fl =>
             let o := opts_of c (restrict fl avail) (dd_of c pd) in
             (* values of the keyword parameters inside the running method of c *)
@@ -132,12 +146,12 @@ Section Table.
         (fix go (l: list node) {struct l} : bool :=
            match l with [] => true | x :: r => ok_h x members outer avail pd && go r end) items
     | NObj cid ch =>
-        match nth_error ct cid, pick_spec outer members cid, pick_impl outer members cid with
+        match nth_error ct cid, pick true outer members cid, pick false outer members cid with
         | Some c, Some fl, Some fl' =>
             let o := opts_of c (restrict fl avail) (dd_of c pd) in
             let avail' := {| kw_on := Some (e_on (eff_of o)); kw_ba := Some (e_ba (eff_of o)); kw_dl := o.(o_call) |} in
             let pd' := pass_dd (dd_of c pd) o.(o_call) c.(c_cfgd) in
-            flags_eqb fl fl' && kw_ok o && flag_defaults_ok o &&
+            flags_eqb fl fl' && (nailed || Nat.leb (List.length members) 1) && kw_ok o && flag_defaults_ok o &&
             (fix go (ch: list node) (fs: list (fplan * list nat)) {struct ch} : bool :=
                match ch, fs with
                | [], [] => true
@@ -158,8 +172,12 @@ Section Table.
         end
     end.
 
-  (* top-level call x.to_dict(kw...) on an instance of class cid *)
-  Definition root_flags : flags := {| g_on := true; g_ba := true; g_dl := true; g_cx := true |}.
-  Definition to_dict_h (spec: bool) (n: node) (cid: nat) (k: kwv) : option pv :=
-    match pack_h spec n [cid] root_flags k None with Some (_, d) => Some d | None => None end.
 End Table.
+
+(* top-level call x.to_dict(kw...) on an instance of the mixin class cid *)
+Definition root_flags : flags := {| g_on := true; g_ba := true; g_dl := true; g_cx := true |}.
+Definition to_dict_h (ct: list cls) (spec: bool) (n: node) (cid: nat) (k: kwv) : option pv :=
+  match pack_h ct true spec n [cid] root_flags k None with Some (_, d) => Some d | None => None end.
+(* BasicEncoder(<class cid>, default_dialect=dd).encode(x) *)
+Definition to_dict_codec (ct: list cls) (spec: bool) (n: node) (cid: nat) (dd: option ns) : option pv :=
+  match pack_h ct false spec n [cid] root_flags no_kw dd with Some (_, d) => Some d | None => None end.
